@@ -120,7 +120,9 @@ def prop_C12(tier, seed, rng):
     s6 = part_gen.generate("boundaryw", 72 if quick else 100000, seed + 17)
     fams = [Family("tlc", "part", "PartTrace", s1, g1), Family("shaped", "part", "PartTrace", s2),
             Family("innernodes", "part", "PartTrace", s3), Family("dense", "part", "PartTrace", s4),
-            Family("pairs", "part", "PartTrace", s5), Family("boundary", "part", "PartTrace", s6)]
+            Family("pairs", "part", "PartTrace", s5), Family("boundary", "part", "PartTrace", s6),
+            # transactions that mark more than 64 channels (the set is then not reused), Commit before Notify
+            Family("bigtxn", "part", "PartTrace", part_gen.generate("c12bigtxn", 60 if quick else 1200, seed + 19))]
     return design, fams, ["C12_"], dict(
         rule="scripts = (a) one per transition of the bounded PartTree.tla state graph, (b) shaped linear histories "
              "with >=1 watch per transaction (Get on present/absent keys, Prefix incl. inside compressed paths, "
@@ -592,7 +594,7 @@ PROPS = {
                     "family c06lpm: 2..8 objects under one prefix of the non-unique LPM index, Get/List/Prefix/LowerBound "
                     "watches through that index renewed after every commit; "
                     "non-trivial = a tracked channel exists when a transaction ends", _nt_watch,
-                    extra_modes=(("c07", 100, 2000), ("kf_l", 20, 100), ("c06inner", 150, 3000), ("c06dense", 400, 8000), ("c06lpm", 120, 2500), ("c06fan", 40, 800), ("sched", 120, 2500)), tlc_gen=True),
+                    extra_modes=(("c07", 100, 2000), ("kf_l", 20, 100), ("c06inner", 150, 3000), ("c06dense", 400, 8000), ("c06lpm", 120, 2500), ("c06fan", 40, 800), ("c06merge", 60, 1200), ("c06big", 24, 480), ("sched", 120, 2500)), tlc_gen=True),
     "C07": _db_prop("C07", "c07", 400, 8000,
                     "up to 4 change iterators created at arbitrary points (also in aborted transactions); Next with "
                     "fresh/retained snapshots and write transactions holding uncommitted changes of the table, full and "
@@ -713,13 +715,14 @@ def replay(path):
     scratch = tempfile.mkdtemp(prefix="vreplay-")
     try:
         fam = Family("replay", body["driver"], body["trace_module"], [body["ops"]])
-        res = core.run_family(fam, scratch, [""])
-        recs = res["bad"]
+        prop = body["property"].split("-")[0]
+        # (the judgement that belongs to the property of the file, if the log has one; else its first violation)
+        res = core.run_family(fam, scratch, [prop])
+        recs = res["bad"] or res["other"]
         if not recs:
             print("replay: no invariant violated")
             return 0
         known = core.load_known()
-        prop = body["property"].split("-")[0]
         rc = 0
         for sid, ln, inv, ev, ops in recs:
             print(f"replay: first violated invariant {inv} at event {ln}: {_evstr(ev)}")
